@@ -48,6 +48,7 @@ type jTy struct {
 	PkgName      string        `json:"pkgName"`
 	Elem         int           `json:"elem"`
 	IsStruct     bool          `json:"isStruct"`
+	IsSlice      bool          `json:"isSlice"` // Underlying() is a slice; elem is then its element
 	IsInvalid    bool          `json:"isInvalid"`
 	UnderStr     string        `json:"underStr"`
 	Fields       []jField      `json:"fields"`
@@ -537,6 +538,10 @@ func ExtractFacts(srcPath, dstPath, rel string) (*Facts, error) {
 		}
 		if b, ok := under.(*types.Basic); ok && b.Kind() == types.Invalid {
 			j.IsInvalid = true
+		}
+		if sl, ok := under.(*types.Slice); ok {
+			j.IsSlice = true
+			j.Elem = u.id(sl.Elem())
 		}
 		return j
 	}
